@@ -28,6 +28,15 @@ MINI = {
     "entity-far2": ([IN["a"], ("decl", "Signal", "t1", B("+", V("a"), I(1))), ("place", "l1", "small-lamp", I(0), I(0), None),
                      ("place", "l2", "small-lamp", I(40), I(0), None), ("prop", "l1", "enable", B(">", V("t1"), I(3))),
                      ("prop", "l2", "enable", B(">", V("t1"), I(3)))], ["a"], [], "value"),
+    # the same with unwired user lamps along the row (they keep the power-pole grid of that row alive)
+    "entity-far4": ([IN["a"], ("decl", "Signal", "t1", B("*", V("a"), I(2))), ("place", "l1", "small-lamp", I(0), I(0), None),
+                     ("prop", "l1", "enable", B(">", V("t1"), I(3))), ("place", "l2", "small-lamp", I(42), I(0), None),
+                     ("prop", "l2", "enable", B(">", V("t1"), I(4))), ("place", "f1", "small-lamp", I(7), I(0), None),
+                     ("place", "f2", "small-lamp", I(14), I(0), None), ("place", "f3", "small-lamp", I(28), I(0), None),
+                     ("place", "f4", "small-lamp", I(35), I(0), None)], ["a"], [], "value"),
+    "entity-far3": ([IN["a"], ("decl", "Signal", "t1", B("+", V("a"), I(1))), ("place", "l1", "small-lamp", I(0), I(0), None),
+                     ("place", "l2", "small-lamp", I(28), I(0), None), ("prop", "l1", "enable", B(">", V("t1"), I(3))),
+                     ("prop", "l2", "enable", B(">", V("t1"), I(3)))], ["a"], [], "value"),
     "cell": ([IN["a"], IN["t"], ("mem", "m", "signal-M"), ("write", "m", ("proj", V("a"), "signal-M"), B(">", V("t"), I(0))),
               ("decl", "Signal", "r", B("+", ("read", "m"), I(1)))], ["a", "t"], ["r"], "stateful"),
     "latch": ([IN["a"], ("mem", "l", "signal-L"), ("latch", "l", I(1), B("<", V("a"), I(2)), B(">=", V("a"), I(3)), "sr"),
@@ -42,7 +51,7 @@ def renamed(name, suffix, shift):
     names = {n: n + suffix for n in lang.declared_names(stmts)}
     out = lang.subst_stmts(stmts, None, names)
     # move user entities apart
-    if name == "entity-far2":     # the second copy runs two tiles below the first
+    if name in ("entity-far2", "entity-far3", "entity-far4"):     # the second copy runs two tiles below the first
         out = [("place", s[1], s[2], s[3], ("int", s[4][1] + (2 if shift else 0)), s[5]) if s[0] == "place" else s for s in out]
     else:
         out = [("place", s[1], s[2], ("int", s[3][1] + shift), s[4], s[5]) if s[0] == "place" else s for s in out]
@@ -66,7 +75,7 @@ class C12(core.Check):
     pid = "C12"
     level = "model_checking"
     timeout = 400
-    rule = ("all ordered pairs (P, Q) of a 16-program corpus (incl. a consumer 40 tiles away, also built with medium poles / substations) that reuse the same signal names and constants, names made "
+    rule = ("all ordered pairs (P, Q) of an 18-program corpus (incl. a consumer 40 tiles away, also built with medium poles / substations) that reuse the same signal names and constants, names made "
             "disjoint, x order-preserving interleavings of their statements (all of them in the thorough tier, 6 spread "
             "over the whole set in the quick tier); P's outputs and entity conditions in build(P;Q) are compared with "
             "build(P) for the full product of P's and Q's input values; stateful P by lock-step BFS over events on P's "
@@ -87,7 +96,7 @@ class C12(core.Check):
                 for k, prog in enumerate(interleavings(p[0], q[0], lim)):
                     out.append({"P": pn, "Q": qn, "k": k, "stmts": prog, "p_stmts": p[0], "p_inputs": p[1], "q_inputs": q[1],
                                 "p_outputs": p[2], "mode": p[3]})
-                    if "entity" in pn and "entity" in qn and k < 2:
+                    if "entity" in pn and "entity" in qn and (k < 2 or ("far" in pn and "far" in qn)):
                         for poles in ("medium", "substation"):
                             out.append(dict(out[-1 if poles == "medium" else -2], poles=poles))
         if tier == "thorough":
